@@ -50,6 +50,7 @@ type Gen struct {
 	loops     map[*ssa.BasicBlock]*loopInfo
 	loopOrd   []*ssa.BasicBlock
 	blockMods map[*ssa.BasicBlock]map[string]*Sort
+	writeLog  map[*ssa.BasicBlock][]writeRec
 	dry       bool
 	curBlock  *ssa.BasicBlock
 	curMods   map[string]*Sort
@@ -110,7 +111,6 @@ func (g *Gen) reset() {
 	g.stSorts = map[string]*Sort{}
 	g.notes = map[string]bool{}
 	g.assumed = map[string]bool{}
-	g.defs = map[string][]nameDef{}
 	g.deferSt = nil
 	g.modelVars = nil
 }
@@ -120,7 +120,13 @@ func (g *Gen) note(format string, a ...interface{}) {
 }
 
 func (g *Gen) errorf(format string, a ...interface{}) {
-	g.errs = append(g.errs, fmt.Sprintf(format, a...))
+	m := fmt.Sprintf(format, a...)
+	for _, e := range g.errs {
+		if e == m {
+			return
+		}
+	}
+	g.errs = append(g.errs, m)
 }
 
 func (g *Gen) emit(line string) {
